@@ -45,12 +45,12 @@ ASSUME = [
 ]
 
 
-def gen_cfg(maxslots, kindmode, cs, archg, by, emit=True, bug="none", sub=(False, True)):
+def gen_cfg(maxslots, kindmode, cs, archg, by, emit=True, bug="none", sub=("plain", "sub", "stop")):
     st = lambda xs: "{" + ", ".join(str(x) for x in xs) + "}"
     return ("SPECIFICATION Spec\nCONSTANTS\n  Bug = \"%s\"\n  MaxSlots = %d\n  KindMode = \"%s\"\n  Cs = %s\n  ArchG = %s\n"
             "  ByOpts = %s\n  SubOpts = %s\n  Emit = %s\nINVARIANTS %s\nCHECK_DEADLOCK FALSE\n"
             % (bug, maxslots, kindmode, st(cs), st(archg), st("TRUE" if b else "FALSE" for b in by),
-               st("TRUE" if b else "FALSE" for b in sub),
+               st('"%s"' % b for b in sub),
                "TRUE" if emit else "FALSE", INVARIANTS))
 
 
@@ -67,7 +67,7 @@ def selftest(ctx):
     # the driver's comparison must reject a damaged script file
     drv = go_build(ctx, "drivers/updatescripts")
     cases = ctx.path("st_cases.ndjson")
-    require_tlc_ok(tlc(ctx, SPECDIR, "MC_UpdateScripts.tla", "MC_st.cfg", cfg_text=gen_cfg(1, "core", [1, 2, 4], [2, 6], [True], sub=[False]),
+    require_tlc_ok(tlc(ctx, SPECDIR, "MC_UpdateScripts.tla", "MC_st.cfg", cfg_text=gen_cfg(1, "core", [1, 2, 4], [2, 6], [True], sub=["plain"]),
                        emit_to=cases, workers=4, timeout=900, files=[TXTAR_TLA], name="stgen"), "selftest generator")
     expect = {"comment": "script-text-changed", "swap": "entries-renamed-or-reordered", "other": "other-entry-changed",
               "revert": "updated-entry-not-holding-actual"}
@@ -89,7 +89,7 @@ def check(ctx):
         return selftest(ctx)
     quick = ctx.tier == "quick"
     allc = [1, 2, 3, 4, 5]
-    B = [False, True]   # SubOpts: the script works in $WORK / after `cd sub` with every entry under sub/
+    B = ["plain", "sub", "stop"]   # SubOpts: the script works in $WORK / after `cd sub` with every entry under sub/ / ends with a `stop` line
     # (MaxSlots, KindMode, Cs, ArchG, ByOpts, driver stride, walks per worker, SubOpts); bounds fitted to measured counts, see REGISTRY.
     # walks = 0: TLC explores every state; walks > 0: seeded random walks (-simulate, SIM_WORKERS workers) through a slot
     # domain with three goldens that is too large to enumerate; TLC checks and emits EVERY successor of every state on a
